@@ -14,6 +14,8 @@ VERIF = os.path.dirname(os.path.dirname(os.path.abspath(__file__)))
 
 # commit (subject prefix is looked up), property, clause, optional class/feature substring, witness name, runs, text
 TABLE = [
+    ("fix: batch processor split keeps", "C05", "container", "part=metric", "split-metric-metadata", 8000,
+     "splitMetric dropped the metric's Metadata when a metric's data points were cut over two batches"),
     ("fix: batch processor split keeps", "C05", "container", "part=resource", "split-schema-url", 4000,
      "splitTraces/splitLogs/splitMetrics dropped the SchemaUrl of a resource or scope they had to cut (send_batch_max_size smaller than a request)"),
     ("fix: a Consume call that overlaps Shutdown", "C05", "exactly-once", "", "consume-overlapping-shutdown", 30000,
@@ -116,10 +118,17 @@ def main():
                     fk = ",".join("%s=%s" % kv for kv in sorted((d.get("features") or {}).items()))
                     if d["clause"] == clause and feat in fk:
                         cand.append(f)
+                dest = os.path.join(VERIF, "replays", prop, "fixed-%s.json" % name)
+                if not cand and ("replay=" + dest) in done_props[prop]:
+                    # no fresh violation of this class was reported (another class of the same commit
+                    # masks it) but the existing witness was replayed by this very run and failed
+                    # again on the reverted tree: it is still a witness
+                    lines[(prop, name)] = "fixed: property=%s clause=%s commit=%s witness=replays/%s/fixed-%s.json %s" % (prop, clause, commit, prop, name, text)
+                    print("witness kept (still reproduces)", os.path.relpath(dest, VERIF))
+                    continue
                 if not cand:
                     print(done_props[prop][-2500:])
                     raise SystemExit("%s: no replay for clause %s after reverting %s" % (prop, clause, commit))
-                dest = os.path.join(VERIF, "replays", prop, "fixed-%s.json" % name)
                 os.makedirs(os.path.dirname(dest), exist_ok=True)
                 shutil.copy(cand[0], dest)
                 lines[(prop, name)] = "fixed: property=%s clause=%s commit=%s witness=replays/%s/fixed-%s.json %s" % (prop, clause, commit, prop, name, text)
